@@ -13,7 +13,8 @@ H_STEP = 1e-20
 # ------------------------------------------------------------------ value tables (dyadic rationals)
 VALS = [0.5, -0.75, 1.25, -1.5, 1.75, 0.25, -0.375, 0.625, -1.125, 1.375, -0.875, 1.625, -0.625, 0.875]
 WTS = [1.5, -0.5, 2.5, 0.75, -1.25, 1.75, -2.25, 0.375, 2.75, -1.75, 0.625, -0.875, 1.125, -2.5, 3.25, 0.125]
-CONSTS = {"c0": 0.5, "c1": -1.25, "c2": 3.0}
+CONSTS = {"c0": 0.5, "c1": -1.25, "c2": 3.0, "s2": 2.0,
+          "A2": np.array([1.5, -0.625]), "A21": np.array([[0.375], [-1.75]]), "A3": np.array([0.75, -1.375, 2.25])}
 
 
 def leaf_values(shape, offset, seed=0):
@@ -71,6 +72,8 @@ OPS1 = {
     "advr": ("{0}[[0, 0]]", lambda t: t[[0, 0]], lambda a: a[[0, 0]], lambda s: len(s) >= 1 and s[0] >= 1),
     "sq2": ("{0} ** 2", lambda t: t**2, lambda a: a * a, lambda s: True),
     "exp": ("mg.exp({0})", lambda t: __import__("mygrad").exp(t), lambda a: np.exp(a), lambda s: True),
+    "cube": ("{0} ** 3", lambda t: t**3, lambda a: a**3, lambda s: True),
+    "mean_1": ("{0}.mean(axis=-1)", lambda t: t.mean(axis=-1), lambda a: a.mean(axis=-1), lambda s: len(s) >= 1),
     "sum": ("{0}.sum()", lambda t: t.sum(), lambda a: a.sum(), lambda s: True),
     "sum0": (
         "{0}.sum(axis=0, keepdims=True)",
@@ -80,10 +83,31 @@ OPS1 = {
     ),
 }
 
+def _mg(name):
+    return lambda *a, **k: getattr(__import__("mygrad"), name)(*a, **k)
+
+
+def _cmax(x, y):
+    return np.where(np.real(x) > np.real(y), x, y)
+
+
+def _cmin(x, y):
+    return np.where(np.real(x) < np.real(y), x, y)
+
+
+# name -> (code, fn on tensors, fn on (possibly complex) arrays)
 OPS2 = {
-    "add": ("{0} + {1}", operator.add),
-    "sub": ("{0} - {1}", operator.sub),
-    "mul": ("{0} * {1}", operator.mul),
+    "add": ("{0} + {1}", operator.add, operator.add),
+    "sub": ("{0} - {1}", operator.sub, operator.sub),
+    "mul": ("{0} * {1}", operator.mul, operator.mul),
+    "div": ("{0} / {1}", operator.truediv, operator.truediv),
+    "matmul": ("{0} @ {1}", operator.matmul, operator.matmul),
+    "max": ("mg.maximum({0}, {1})", _mg("maximum"), _cmax),
+    "min": ("mg.minimum({0}, {1})", _mg("minimum"), _cmin),
+    "cat": ("mg.concatenate([{0}, {1}])", lambda x, y: _mg("concatenate")([x, y]), lambda x, y: np.concatenate([x, y])),
+    "where": ("mg.where(alt_mask(np.broadcast_shapes(np.shape({0}), np.shape({1}))), {0}, {1})",
+              lambda x, y: _mg("where")(alt_mask(np.broadcast_shapes(np.shape(x), np.shape(y))), x, y),
+              lambda x, y: np.where(alt_mask(np.broadcast_shapes(np.shape(x), np.shape(y))), x, y)),
 }
 
 # set-item index catalogue: name -> (code, index object factory, applicable(shape))
@@ -132,13 +156,34 @@ class Model:
         self.time = -1
         self.inject = inject  # (owner name, flat index, time)
         self._fam_ub = {}  # family -> ultimate base object (strong ref)
+        self.anc = {}  # (family, version) -> set of ancestor (family, version) nodes (liberal dataflow)
         for name, shape, offset, const in init:
             arr = leaf_values(shape, offset, seed).astype(dtype)
             self._new_owner(name, arr, const)
         self._maybe_inject()
 
     # -- bookkeeping
-    def _new_owner(self, name, arr, const):
+    def cur(self, name):
+        f = self.fam[name]
+        return (f, self.version[f])
+
+    def _anc_of(self, inputs):
+        out = set()
+        for i in inputs:
+            if self.const.get(i, True):
+                continue
+            c = self.cur(i)
+            out.add(c)
+            out |= self.anc.get(c, set())
+        return out
+
+    def reaches(self, name, target):
+        """liberal structural dependency: does `target`'s current value depend on `name`'s family?"""
+        a, b = self.cur(name), self.cur(target)
+        return a == b or a in self.anc.get(b, ())
+
+    def _new_owner(self, name, arr, const, inputs=()):
+        anc = self._anc_of(inputs)
         self.a[name] = arr
         t = np.empty_like(arr, dtype=np.int64)
         t[...] = np.arange(arr.size).reshape(arr.shape)
@@ -149,6 +194,7 @@ class Model:
         self.order.append(name)
         self.version[name] = self.time
         self.created[name] = self.time
+        self.anc[(name, self.time)] = anc
 
     def _new_member(self, name, arr, tag, src, const):
         self.a[name] = arr
@@ -189,34 +235,37 @@ class Model:
         if ub(r) is self._fam_ub[self.fam[src]]:
             self._new_member(out, r, f(self.tag[src]), src, self.const[src])
         else:
-            self._new_owner(out, r, self.const[src])
+            self._new_owner(out, r, self.const[src], (src,))
 
     def _op1(self, out, src, oname):
         r = np.asarray(OPS1[oname][2](self.a[src]))
-        self._new_owner(out, r, self.const[src])
+        self._new_owner(out, r, self.const[src], (src,))
 
     def _op2(self, out, a, b, oname):
         x = self.value_of(a)
         y = self.value_of(b)
-        r = np.asarray(OPS2[oname][1](x, y))
+        r = np.asarray(OPS2[oname][2](x, y))
         ca = self.const[a[1]] if a[0] == "t" else True
         cb = self.const[b[1]] if b[0] == "t" else True
-        self._new_owner(out, r, ca and cb)
+        self._new_owner(out, r, ca and cb, [v[1] for v in (a, b) if v[0] == 't'])
 
     def index_obj(self, tgt, iname):
         if iname == "bool":
             return alt_mask(self.a[tgt].shape)
         return INDICES[iname][1]()
 
-    def _touch(self, tgt):
+    def _touch(self, tgt, inputs=()):
+        old = self.cur(tgt)
+        anc = {old} | self.anc.get(old, set()) | self._anc_of(inputs)
         self.version[self.fam[tgt]] = self.time
+        self.anc[self.cur(tgt)] = anc
 
     def _set(self, tgt, iname, val):
         v = self.value_of(val)
         if isinstance(v, np.ndarray) and np.shares_memory(v, self.a[tgt]):
             v = v.copy()
         self.a[tgt][self.index_obj(tgt, iname)] = v
-        self._touch(tgt)
+        self._touch(tgt, [val[1]] if val[0] == "t" else ())
 
     def _iop(self, tgt, oname, val):
         v = self.value_of(val) if val is not None else None
@@ -233,7 +282,7 @@ class Model:
             a *= a.copy()
         else:
             raise KeyError(oname)
-        self._touch(tgt)
+        self._touch(tgt, [val[1]] if val is not None and val[0] == "t" else ())
 
     def _out(self, tgt, uf, a, b, mask):
         x = self.value_of(a)
@@ -247,7 +296,7 @@ class Model:
             r = f(x, y)
             r = np.broadcast_to(r, self.a[tgt].shape)
             self.a[tgt][m] = r[m]
-        self._touch(tgt)
+        self._touch(tgt, [v[1] for v in (a, b) if v[0] == "t"])
 
     def _setshape(self, tgt, shape):
         import warnings
@@ -353,7 +402,10 @@ class Impl:
 
 # ------------------------------------------------------------------ rendering histories as scripts
 def render_val(val):
-    return repr(CONSTS[val[1]]) if val[0] == "c" else val[1]
+    if val[0] != "c":
+        return val[1]
+    c = CONSTS[val[1]]
+    return repr(c) if not isinstance(c, np.ndarray) else "np." + repr(c)
 
 
 def render(st):
